@@ -7,7 +7,7 @@ import zlib
 import refcodec
 from lib import hx
 
-EXTRA_PROPS = ['C01Dispatch', 'C01DispatchLive']
+EXTRA_PROPS = ['C01Dispatch', 'C01DispatchLive', 'C01Buffer']
 
 EXTRACT = ['gen.c01dispatch']
 
@@ -462,6 +462,7 @@ def run(ctx):
                           {'kind': kind, 'threshold': thr, 'id': good_pid, 'len': len(body)},
                           key={'kind': 'after-failed-serialise', 'k': kind, 'thr': thr})
     dispatch_tie(ctx)
+    buffer_tie(ctx)
 
 
 def dispatch_tie(ctx):
@@ -681,6 +682,97 @@ def dispatch_tie(ctx):
             ctx.disagree('%s vs the real code' % op, line[:600], m[:400], w[:400])
     ctx.extra['c01dispatch_pairs'] = ctx.extra.get('c01dispatch_pairs', 0) + len(reqs)
     ctx.extra['c01dispatch_pairs_by_op'] = {'dispatch.readall': n_read, 'conn.write': n_write, 'opts.run': len(reqs) - n_read - n_write}
+
+
+def buffer_tie(ctx):
+    """Props/C01Buffer: `pbuf.run` against the live PacketBuffer.  Sequences that follow the discipline
+    of Packet.write / read_packet (episodes `reset? sends* (get)* rewind reads*`) are a HARD tie and are
+    also judged by a model-independent oracle (the reads are the consecutive pieces of what was sent,
+    get_writable is the concatenation); sequences outside it (a send while the cursor is not at the
+    end: BytesIO overwrites) are compared too but only RECORDED -- no pyCraft code path does that, and
+    an append-only re-implementation of the buffer must not raise an alarm."""
+    from minecraft.networking.packets.packet_buffer import PacketBuffer
+    rng = ctx.rng
+
+    def hx(b):
+        return b.hex() or '-'
+
+    def live(ops):
+        b = PacketBuffer()
+        outs = []
+        for op in ops:
+            k = op[0]
+            if k == 's':
+                b.send(op[1])
+            elif k == 'r':
+                outs.append((b.read if rng.random() < 0.5 else b.recv)(op[1]))
+            elif k == 'R':
+                b.reset()
+            elif k == 'c':
+                b.reset_cursor()
+            else:
+                outs.append(b.get_writable())
+        return 'ok pos=%d len=%d' % (b.bytes.tell(), len(b.bytes.getvalue())) + ''.join(' ' + hx(o) for o in outs), outs
+
+    def tok(op):
+        if op[0] == 's':
+            return 's:' + hx(op[1])
+        if op[0] == 'r':
+            return 'r:*' if op[1] is None else 'r:%d' % op[1]
+        return op[0]
+
+    def blob():
+        n = rng.choice([0, 1, 1, 2, 3, 5, 8, 40])
+        return bytes(rng.randrange(256) for _ in range(n))
+
+    seqs = []
+    for i in range(ctx.scale(400, 6000)):
+        ops, expect, disciplined = [], [], True
+        if i % 4 == 3:                       # outside the discipline: any order of operations
+            disciplined = False
+            for _ in range(rng.randrange(1, 14)):
+                k = rng.choice('ssssrrrRcgg')
+                ops.append(('s', blob()) if k == 's' else
+                           ('r', rng.choice([None, 0, 1, 2, 3, 7, 100])) if k == 'r' else (k,))
+        else:
+            for ep in range(rng.randrange(1, 4)):
+                if ep or rng.random() < 0.3:
+                    ops.append(('R',))
+                sent = b''
+                for _ in range(rng.randrange(0, 6)):
+                    v = blob()
+                    ops.append(('s', v))
+                    sent += v
+                    if rng.random() < 0.2:
+                        ops.append(('g',))
+                        expect.append(sent)
+                ops.append(('c',))
+                rest = sent
+                for _ in range(rng.randrange(0, 6)):
+                    n = rng.choice([None, 0, 1, 2, 3, 7, 100]) if rng.random() < 0.9 else len(rest)
+                    ops.append(('r', n))
+                    piece = rest if n is None else rest[:n]
+                    rest = rest[len(piece):]
+                    expect.append(piece)
+                    if rng.random() < 0.15:
+                        ops.append(('g',))
+                        expect.append(sent)
+        seqs.append((ops, expect, disciplined))
+    lines = ['pbuf.run ' + ' '.join(tok(o) for o in ops) for ops, _, _ in seqs]
+    for (ops, expect, disc), line, m in zip(seqs, lines, ctx.driver.ask(lines)):
+        w, outs = live(ops)
+        ctx.case(('pbuf', line), sample={'op': 'pbuf.run', 'impl': w[:120]} if len(ops) > 6 else None)
+        ctx.count('buffer_tie.' + ('disciplined' if disc else 'free'))
+        if disc:
+            if outs != expect:
+                ctx.violation('PacketBuffer used as Packet.write / read_packet use it does not behave as a byte string: '
+                              '%s returned %s, the bytes sent cut at the requested sizes are %s'
+                              % (line, [hx(o) for o in outs], [hx(e) for e in expect]),
+                              {'ops': line}, key={'kind': 'packet-buffer', 'ops': line})
+            if m != w:
+                ctx.disagree('pbuf.run vs the real PacketBuffer', line[:400], m[:300], w[:300])
+        elif m != w:
+            ctx.count('buffer_tie.free.differs-from-model(recorded, not judged)')
 
 
 def pkts_by_pos(pkts, k):
